@@ -2081,7 +2081,7 @@ def run_C16(rep, tier, rng):
 register("C01", run_C01, ["C01.C01_every_grammar", "C01.C01_generator_passes_validator", "C01.C01_coding_faithful", "C01.C01_no_panic_and_sound", "C01.C01_complete", "C01.C01_accepts_iff", "C01.C01_sentences_terminate", "C01.C01_framed_decides", "C01.C01_framed_halts", "C01.C01_certified_decides", "C01.C01_potential_halts"])
 register("C02", run_C02, ["C02.C02_every_grammar", "C02.C02_tree", "C02.C02_that_tree", "C02.C02_unique", "C02.C02_faithful"])
 register("C03", run_C03, ["C03.C03_every_grammar", "C03.C03_viable", "C03.C03_not_early", "C03.C03_lookahead_only", "C03.C03_first_offending", "C03.C03_front_end", "C03.C03_front_end_first_offending", "C03.C03_framed_rejects"])
-register("C04", run_C04, ["C04.C04_emitted_iff_lalr1", "C04.C04_emitted_iff_conflict_free", "C04.C04_setAction_ok_iff", "C04.C04_setAction_fresh", "C04.C04_ok_conflict_free", "C04.C04_conflict_genuine"])
+register("C04", run_C04, ["C04.C04_emitted_iff_lalr1", "C04.C04_ambiguous_rejected", "C04.C04_emitted_iff_conflict_free", "C04.C04_setAction_ok_iff", "C04.C04_setAction_fresh", "C04.C04_ok_conflict_free", "C04.C04_conflict_genuine"])
 register("C05", run_C05, ["C05.C05_names_distinct", "C05.C05_names_exist", "C05.C05_fresh"])
 register("C06", run_C06, ["C06.C06_fields", "C06.C06_items_and_signature"])
 register("C07", run_C07, ["C07.C07_generate_total", "C07.C07_front_parse_halts", "C07.C07_generate_no_panic", "C07.C07_emission_total", "C07.C07_validate_no_panic", "C07.C07_generator_no_panic", "C07.C07_generator_total", "C07.C07_parse_error_no_panic", "C07.bracketScan_no_panic", "C07.C07_handleMain_no_panic", "C07.C07_tokenize_total", "C07.C07_parse_no_panic", "C07.C07_cst_to_ast_total"])
